@@ -194,9 +194,18 @@ def _headers(protected_bstr, unprotected):
 class KeyStore(object):
     ''' Keys the verifying node holds. '''
 
-    def __init__(self, sym=None, ca_certs=None):
+    def __init__(self, sym=None, ca_certs=None, known_certs=None):
         self.sym = dict(sym or {})          # kid -> key bytes
         self.ca_certs = list(ca_certs or [])  # cryptography certificates
+        self.known_certs = list(known_certs or [])  # DER end-entity certificates seen (and validated) earlier, for x5t look-up
+
+    def by_thumbprint(self, alg_id, tprint):
+        if alg_id != -16:
+            raise SecError('unsupported thumbprint algorithm %r' % (alg_id,))
+        for der in self.known_certs:
+            if hashlib.sha256(bytes(der)).digest() == tprint:
+                return [bytes(der)]
+        raise SecError('no certificate for the thumbprint')
 
     def ee_public_key(self, chain_der, source_eid, at_time=None):
         ''' Public key of the end-entity certificate if it is issued by a trusted CA and names the security source. '''
@@ -222,6 +231,12 @@ class KeyStore(object):
                 continue
         if not trusted:
             raise SecError('certificate is not issued by a trusted CA')
+        if at_time:
+            # validity at the creation time of the bundle (milliseconds since 2000-01-01T00:00:00Z)
+            import datetime
+            moment = datetime.datetime(2000, 1, 1) + datetime.timedelta(milliseconds=at_time)
+            if not (cert.not_valid_before <= moment <= cert.not_valid_after):
+                raise SecError('certificate is not valid at the bundle creation time %s' % moment.isoformat())
         names = []
         try:
             ext = cert.extensions.get_extension_for_oid(x509.oid.ExtensionOID.SUBJECT_ALTERNATIVE_NAME)
@@ -324,9 +339,17 @@ def verify_result(tag, value, bundle, sec_blk, tgt_blk, asb, keys):
         if alg not in ECDSA_ALGS:
             raise SecError('unsupported signature algorithm %r' % (alg,))
         chain = header(phdr, uhdr, 33)
+        x5t = header(phdr, uhdr, 34)
+        if isinstance(chain, bytes):
+            chain = [chain]
+        if x5t is not None:
+            if not (isinstance(x5t, list) and len(x5t) == 2 and isinstance(x5t[1], bytes)):
+                raise SecError('bad x5t')
+            if not (chain and x5t[0] == -16 and hashlib.sha256(bytes(chain[0])).digest() == x5t[1]):
+                chain = keys.by_thumbprint(x5t[0], x5t[1])
         if chain is None:
             raise SecError('no x5chain')
-        pub = keys.ee_public_key(chain, asb['source'])
+        pub = keys.ee_public_key(chain, asb['source'], at_time=bundle['primary']['create_time'])
         sig = msg[3]
         if not isinstance(sig, bytes) or len(sig) % 2:
             raise SecError('bad signature')
@@ -462,6 +485,21 @@ def make_enc0_result(alg, kid, key, nonce, ext_aad, plaintext):
     prot = cw.enc({1: alg})
     ciphertext = gcm_encrypt(key, nonce, plaintext, enc_aad('Encrypt0', prot, ext_aad))
     return (TAG_ENC0, cw.enc([prot, {4: kid, 5: nonce}, None])), ciphertext
+
+
+def make_sign1_result(alg, private_key, chain_der, ext_aad, payload, x5t_only=False):
+    ''' COSE_Sign1 (ECDSA, raw r||s signature) with the certificate chain in the unprotected x5chain header. '''
+    from cryptography.hazmat.primitives.asymmetric import ec, utils
+    from cryptography.hazmat.primitives import hashes
+    prot = cw.enc({1: alg})
+    hfunc = {'sha256': hashes.SHA256, 'sha384': hashes.SHA384, 'sha512': hashes.SHA512}[ECDSA_ALGS[alg]]()
+    der = private_key.sign(sign1_input(prot, ext_aad, payload), ec.ECDSA(hfunc))
+    (r_val, s_val) = utils.decode_dss_signature(der)
+    size = (private_key.curve.key_size + 7) // 8
+    sig = r_val.to_bytes(size, 'big') + s_val.to_bytes(size, 'big')
+    chain = chain_der[0] if len(chain_der) == 1 else list(chain_der)
+    uhdr = {34: [-16, hashlib.sha256(bytes(chain_der[0])).digest()]} if x5t_only else {33: chain}
+    return (TAG_SIGN1, cw.enc([prot, uhdr, None, sig]))
 
 
 def make_enc_kw_result(alg, recipients, cek, nonce, ext_aad, plaintext, kw_alg=-5):
